@@ -58,7 +58,7 @@ CHECKS["C16"] = dict(
          "then list order; the transformer returns type(node)(**fields) with fresh lists; visit dispatches on 'visit_'+class "
          "name with generic_visit as default for all shipped visitors; node classes are frozen dataclasses with generated "
          "equality over all fields, built as declared (no __new__ that hands back another object); a handler's exception leaves visit() unchanged (no try around "
-         "the handler call that re-dispatches); no function stores to/deletes from/mutates a node parameter or its lists.",
+         "the handler call that re-dispatches); visit() itself never raises, also with any value of the attributes it keeps on the instance; no function stores to/deletes from/mutates a node parameter or its lists.",
     note="Trusted: dataclasses semantics (frozen, eq). Alias tracking in the mutation scan is intra-procedural.",
     ref="5 C16")
 CHECKS["C17"] = dict(
@@ -104,7 +104,7 @@ _c("C01", "template extraction by abstract interpretation of the SQLite visitor 
 _c("C02", "constructor-term extraction by abstract interpretation of the Django visitor + meaning-table comparison (static)",
    "Decides the structural clauses: operator -> Django construct mapping with operand order; custom NotEqual lookup; COMPARISON_FLIP "
    "involution; eq/ne null polarity and refusal for other comparators; every djangofunc_* against the meaning table; promotion to Q "
-   "exactly at depth 0; shorthand annotates before filtering on the incoming queryset; substring family type-checks both operands; literal "
+   "exactly at depth 0; every Case/When the visitor builds yields true for matching and false for other rows; shorthand annotates before filtering on the incoming queryset; substring family type-checks both operands; literal "
    "values as written (token-action rule) and the shorthand chain parse(text) -> visit -> one filter without shared state (caches, mutated "
    "mutable defaults); operand order for every operator, comparison operands unwrapped; visit_Call hands the call's arguments to the handler; the typing rules of C18 (typecheck / infer_type) as a precondition.",
    "Not decided: Django's SQL compilation and execution for all table contents.")
@@ -119,7 +119,7 @@ _c("C03", "constructor-term extraction by abstract interpretation of both SQLAlc
 _c("C04", "logical normalisation of the terms built by visit_CollectionLambda + installed-library signature reading + Core F shape facts (static)",
    "Decides the structural clauses: paths are left-nested and lambda owners are full paths in the parser's image; any(p)/any()/all(p) are "
    "built as exists/exists/not-exists-not on both ORMs (keyword arguments count only if the installed constructor declares them); the "
-   "lambda body is made relative and translated by a sub-visitor on the related model; to-one joins are outer joins; Django path spelling; "
+   "lambda body is made relative and translated by a sub-visitor on the related model; the Django EXISTS subquery is filtered by {reversed path: OuterRef('pk')}; to-one joins are outer joins; Django path spelling; "
    "no state shared between visitor instances (cache keys must determine the cached value); an owner built from a path of unknown depth keeps "
    "every segment; a join is skipped only for the very relationship already joined (C15's rules); the joins a lambda body needs are applied.",
    "Not decided: per-parent correlation, many-to-many semantics, run-time agreement of both ORMs. Known finding F32.")
@@ -163,7 +163,7 @@ _c("C13", "printer templates vs the parser's LALR decision relation, lexer-actio
    "Relies on C05 for the decision relation being the specification's.")
 _c("C15", "builder-chain analysis of the shorthands by abstract interpretation + class-body analysis of GenericFunction registration (static)",
    "Decides: results are built from the incoming query by additive builders only, ending in exactly one filter of the translated clause; "
-   "collected joins are applied (outer) before the filter or skipped only if present; Django annotations applied before filter; every "
+   "collected joins are applied (outer) before the filter or skipped only if present (a per-relationship test, not a positional cut such as dropwhile); Django annotations applied before filter; every "
    "GenericFunction subclass declares its own package (registration rule re-read from the installed SQLAlchemy); no module-level write into "
    "SQLAlchemy's namespace, no compile hook or event listener on SQLAlchemy's own classes; no mutated mutable default in the back-end packages; no path of a shorthand ends in a NameError/TypeError/AttributeError of its own statements.",
    "Not decided: row-level equality with the base query, SQLAlchemy's join de-duplication, legacy Query internals.")
